@@ -422,6 +422,12 @@ func (s *Selection) SelectAShellWord() (bpos, epos int) {
 		}
 
 		s.cursor.Move(s.line.Backward(s.line.TokenizeSpace, s.cursor.Pos()))
+
+		// Stop if we can't go further back.
+		if s.cursor.Pos() >= mark {
+			break
+		}
+
 		mark = s.cursor.Pos()
 	}
 
@@ -436,6 +442,12 @@ func (s *Selection) SelectAShellWord() (bpos, epos int) {
 		}
 
 		s.cursor.Move(s.line.ForwardEnd(s.line.TokenizeSpace, cpos))
+
+		// Stop if we can't go further forward.
+		if s.cursor.Pos() <= cpos {
+			break
+		}
+
 		cpos = s.cursor.Pos()
 	}
 
